@@ -7,6 +7,7 @@ import (
 	"math"
 	"sort"
 	"strings"
+	"verif/vrand"
 
 	"github.com/TimothyStiles/poly/transform/codon"
 
@@ -302,6 +303,171 @@ func c18units(tier string) []mc.Unit {
 			r.AddStates(cnt)
 			r.AddTransitions(cnt)
 			r.AddNontrivial(cnt)
+		}})
+	}
+	// large weights: tables assembled directly with counts up to 2^31 (shares and the cut-off comparison must not
+	// depend on the magnitude of the counts), cut-offs a little below and above the realised shares
+	for _, id := range []int{1, 11} {
+		id := id
+		us = append(us, mc.Unit{Name: fmt.Sprintf("large-weights/code=%d", id), Serial: true, Weight: 60, Run: func(r *mc.Recorder) {
+			base := viewOf(codon.GetCodonTable(id))
+			var cnt int64
+			direct := func(cods []string, w []int) codon.Table {
+				t := deepCopyTable(codon.GetCodonTable(id))
+				for i := range t.AminoAcids {
+					for j := range t.AminoAcids[i].Codons {
+						for k, c := range cods {
+							if t.AminoAcids[i].Codons[j].Triplet == c {
+								t.AminoAcids[i].Codons[j].Weight = w[k]
+							}
+						}
+					}
+				}
+				return t
+			}
+			for _, letter := range []string{"F", "I"} {
+				cods := base.synonyms()[letter]
+				for _, T := range []int{9973, 214749, 519999, 1000003, 429497*5 + 1, 1<<31 - 1, 1000000007} {
+					for _, share := range []float64{0.02, 0.1, 0.25, 0.4808, 0.5, 0.9} {
+						w0 := int(share * float64(T))
+						for _, d := range []int{-1, 0, 1} {
+							a := make([]int, len(cods))
+							a[0] = w0 + d
+							a[1] = T - a[0]
+							if a[0] < 0 || a[1] < 0 {
+								continue
+							}
+							for _, b := range [][]int{{61, 39, 0}, {1, 1, 1}, {a[1], a[0], 0}} {
+								b = b[:len(cods)]
+								ta, tb := direct(cods, a), direct(cods, b)
+								va, vb := viewOf(ta), viewOf(tb)
+								sa := float64(a[0]) / float64(T)
+								for _, rel := range []float64{-0.04, -0.01, -0.001, 0.001, 0.01, 0.03, 0.045} {
+									cut := sa * (1 + rel)
+									if cut < 0 || cut > 1 {
+										continue
+									}
+									for _, sw := range []bool{false, true} {
+										x, y, vx, vy := ta, tb, va, vb
+										if sw {
+											x, y, vx, vy = tb, ta, vb, va
+										}
+										var ct codon.Table
+										var err error
+										cas := fmt.Sprintf("code %d %s counts %v and %v (swapped=%v) cut-off %.6f", id, letter, a, b, sw, cut)
+										if p := catch(func() { ct, err = codon.CompromiseCodonTable(x, y, cut) }); p != "" || err != nil {
+											r.Failf("compromise-accepted", cas, []string{"large"}, "a table", fmt.Sprint(err, p))
+											continue
+										}
+										cnt++
+										if msg := compromiseCheck(vx, vy, viewOf(ct), cut); msg != "" {
+											r.Failf("compromise-mean-or-zero", cas, []string{"large"}, "mean of the shares x 10000 (+-1), or 0 below the cut-off", msg)
+										}
+									}
+								}
+								var at codon.Table
+								if p := catch(func() { at = codon.AddCodonTable(ta, tb) }); p != "" {
+									r.Failf("add-sums", fmt.Sprintf("code %d %s counts %v and %v", id, letter, a, b), []string{"large"}, "a table", "panic: "+p)
+									continue
+								}
+								cnt++
+								vt := viewOf(at)
+								for _, c := range allCodons {
+									if vt.w[c] != va.w[c]+vb.w[c] {
+										r.Failf("add-sums", fmt.Sprintf("code %d %s counts %v and %v", id, letter, a, b), []string{"large"}, fmt.Sprintf("%s: %d", c, va.w[c]+vb.w[c]), fmt.Sprint(vt.w[c]))
+										break
+									}
+								}
+							}
+						}
+					}
+				}
+			}
+			r.Eval(cnt)
+			r.AddStates(cnt)
+			r.AddTransitions(cnt)
+			r.AddNontrivial(cnt)
+			r.Bound("large-weights", "counts of magnitude 10^4..2^31 at six shares (+-1 count) x three partner tables x seven cut-offs relative to the share, both argument orders")
+		}})
+	}
+	// homopolymer and other single-residue runs: proteins L^k (k = 1..10) on compromise tables in which one codon of L
+	// survives the cut-off; default answers for every draw, and for one amino acid every answer of one draw (one deviation) at k = 5
+	for _, id := range []int{1, 11} {
+		id := id
+		us = append(us, mc.Unit{Name: fmt.Sprintf("optimize-runs/code=%d", id), Serial: true, Weight: 200, Run: func(r *mc.Recorder) {
+			base := viewOf(codon.GetCodonTable(id))
+			var cnt int64
+			syn := base.synonyms()
+			var letters []string
+			for l, cods := range syn {
+				if len(cods) >= 2 && l != "*" {
+					letters = append(letters, l)
+				}
+			}
+			sort.Strings(letters)
+			for _, l := range letters {
+				cods := syn[l]
+				for _, survivor := range []int{0, len(cods) - 1} {
+					a, b := make([]int, len(cods)), make([]int, len(cods))
+					for i := range cods {
+						a[i], b[i] = 1, 2
+					}
+					a[survivor], b[survivor] = 10*len(cods), 8*len(cods)
+					ta, tb := c18table(id, cods, a), c18table(id, cods, b)
+					va, vb := viewOf(ta), viewOf(tb)
+					sumA, sumB := 0, 0
+					for _, c := range cods {
+						sumA += va.w[c]
+						sumB += vb.w[c]
+					}
+					const cut = 0.25
+					ct, err := codon.CompromiseCodonTable(ta, tb, cut)
+					if err != nil {
+						continue
+					}
+					for k := 1; k <= 10; k++ {
+						protein := strings.Repeat(l, k)
+						dev := 0
+						if k == 5 && l == letters[0] && survivor == 0 {
+							dev = 1
+						}
+						vrand.Enabled, vrand.Bounded = true, true
+						mc.Explore(mc.Options{DevBound: dev, PreemptBound: -1, MaxExecs: 200000}, func(c *mc.Ctx) bool {
+							var dna string
+							var err error
+							p := catch(func() { dna, err = codon.Optimize(protein, ct) })
+							cnt++
+							cc := fmt.Sprintf("code %d %s counts %v and %v cut-off %g, protein %s, answers %v", id, l, a, b, cut, protein, c.Choices())
+							if p != "" {
+								r.Failf("no-panic", cc, []string{"runs"}, "a gene or an error", "panic: "+p)
+								return false
+							}
+							if err != nil {
+								return true
+							}
+							if len(dna) != 3*k {
+								r.Failf("optimized-gene-respects-cutoff", cc, []string{"runs"}, fmt.Sprintf("%d bases", 3*k), q(dna))
+								return false
+							}
+							for i := 0; i < len(dna); i += 3 {
+								cd := dna[i : i+3]
+								sa, sb := float64(va.w[cd])/float64(sumA), float64(vb.w[cd])/float64(sumB)
+								if va.letter[cd] != l || sa < cut-1e-4 || sb < cut-1e-4 {
+									r.Failf("optimized-gene-respects-cutoff", cc, []string{"runs"}, fmt.Sprintf("%s codons with share >= %g in both tables", l, cut), fmt.Sprintf("%s at residue %d (shares %.4f, %.4f) in %s", cd, i/3+1, sa, sb, dna))
+									return false
+								}
+							}
+							return !r.Enough()
+						})
+						vrand.Enabled, vrand.Bounded = false, false
+					}
+				}
+			}
+			r.Eval(cnt)
+			r.AddStates(cnt)
+			r.AddTransitions(cnt)
+			r.AddNontrivial(cnt)
+			r.Bound("optimize-runs", "every amino acid with synonyms x first/last codon as sole survivor x proteins L^1..L^10; default answers, plus every answer of one draw for one amino acid at k = 5")
 		}})
 	}
 	us = append(us, historyUnit("api-histories", codonMenu(), 2))
